@@ -234,10 +234,11 @@ func (wd *world) poll(s *session, allowExpunge bool) {
 	s.nTag++
 	tag := fmt.Sprintf("p%d", s.nTag)
 	if allowExpunge {
-		s.raw.SendStr(tag + " NOOP\r\n")
+		s.raw.SendStr(tag + []string{" NOOP\r\n", " noop\r\n", " NoOp\r\n"}[(len(wd.M)+len(s.view))%3])
 		wd.hist = append(wd.hist, "poll-all "+s.name)
 	} else {
-		s.raw.SendStr(tag + " FETCH 1 FLAGS\r\n")
+		// (command names are case-insensitive atoms)
+		s.raw.SendStr(tag + []string{" FETCH 1 FLAGS\r\n", " fetch 1 FLAGS\r\n", " Fetch 1 flags\r\n", " STORE 1 +FLAGS.SILENT (x)\r\n", " store 1 +flags.silent (x)\r\n", " SEARCH ALL\r\n", " sEARCH all\r\n"}[(len(wd.M)+2*len(s.view))%7])
 		wd.hist = append(wd.hist, "poll-noexpunge "+s.name)
 	}
 	out, cond := s.raw.Sync()
